@@ -386,3 +386,9 @@ func firstLines(s string, n int) string {
 	}
 	return strings.Join(ls, "\n  ")
 }
+
+// Must is Check returning the obligation for chaining.
+func (o *Ob) Must(cond bool, format string, a ...any) *Ob {
+	o.Check(cond, format, a...)
+	return o
+}
